@@ -284,7 +284,13 @@ class Spinning(BaseException):
     pass
 
 
+_SPIN = {"trace": None, "cut": None}
+
+
 def _spin(signum, frame):
+    # what the probes record while the exception unwinds (finally blocks, __exit__) depends on where the timer happened to fire: the trace counts up to here
+    if _SPIN["cut"] is None and _SPIN["trace"] is not None:
+        _SPIN["cut"] = len(_SPIN["trace"])
     raise Spinning()
 
 
@@ -309,6 +315,7 @@ def observe(text, names):
             continue
         for val in VALUATIONS:
             ns["TRACE"].clear()
+            _SPIN["trace"], _SPIN["cut"] = ns["TRACE"], None
             old = sys.stdout
             sys.stdout = io.StringIO()
             old_handler = signal.signal(signal.SIGVTALRM, _spin)
@@ -329,7 +336,10 @@ def observe(text, names):
                 signal.setitimer(signal.ITIMER_VIRTUAL, 0, 0)
                 signal.signal(signal.SIGVTALRM, old_handler or signal.SIG_DFL)
                 sys.stdout = old
-            rows.append((tuple(ns["TRACE"]), outcome))
+            if _SPIN["cut"] is not None:  # the run was cut by the spin guard: the verdict is "spins after this prefix", whatever exception finally surfaced
+                rows.append((tuple(ns["TRACE"][: _SPIN["cut"]]), ("exc", "Spinning")))
+            else:
+                rows.append((tuple(ns["TRACE"]), outcome))
         out[name] = rows
     return out
 
